@@ -325,6 +325,22 @@ func e3Rules(p *Prog) *RuleSet {
 				}
 				return gen, kill
 			}},
+			// assigning a call result or parameter to an optional (interface /
+			// function typed) location counts as setting it
+			{Name: "opt-store", AnyDyn: func(m *Matcher, in ssa.Instruction) (gen, kill []Atom) {
+				st, ok := in.(*ssa.Store)
+				if !ok || !optionalKind(st.Val.Type()) {
+					return nil, nil
+				}
+				loc := "*" + canonAddr(st.Addr)
+				kill = []Atom{Atom("~" + loc)}
+				switch v := st.Val.(type) {
+				case *ssa.Call, *ssa.Extract, *ssa.Parameter, *ssa.MakeInterface, *ssa.MakeClosure, *ssa.Function:
+					_ = v
+					gen = []Atom{Atom("v:nn:" + loc)}
+				}
+				return gen, kill
+			}},
 		},
 		DynComplement: true,
 		Derive: []Derivation{
@@ -433,7 +449,7 @@ func boundFacts(m *Matcher, p Pred, holds bool) []Atom {
 	strict := false
 	switch p.Kind {
 	case "nil":
-		if !isPtrLike(p.X.Type()) {
+		if !isPtrLike(p.X.Type()) && !optionalKind(p.X.Type()) {
 			return nil
 		}
 		if !holds {
